@@ -421,7 +421,7 @@ impl Net {
         q.questions.push(RefQ { name: RefName::txt(name), qtype, qclass: 1, unicast: true });
         let bytes = q.encode(0);
         let want = RefName::txt(name);
-        for _attempt in 0..8 {
+        for _attempt in 0..24 {
             if self.send(&bytes).is_err() {
                 return false;
             }
